@@ -14,7 +14,7 @@ import (
 	"verif/harness/internal/stats"
 )
 
-const ruleConcRm = "rapid: a registry of 2-4 pipelines over 2 event types drawn from node lists that share nodes, then 2-4 removal calls (RemovePipelineAndNodes, RemovePipeline, RemoveNode; duplicates likely) released at the same instant, 10-40 rounds per case on fresh brokers; oracle = the facts that hold for every sequential order of those calls: the targeted pipelines are gone and the others still deliver, every node listed by a remaining pipeline is still registered and was not closed, no node was closed twice, a closed node is unregistered, and afterwards every registered node that no remaining pipeline lists can be removed (nothing stays pinned); non-trivial = two calls target the same pipeline while another pipeline shares one of its nodes; distinct = configuration"
+const ruleConcRm = "rapid: a registry of 2-4 pipelines over 2 event types drawn from node lists that share nodes, then 2-4 calls (RemovePipelineAndNodes, RemovePipeline, RemoveNode - duplicates likely - and RegisterPipeline of a new pipeline over the same nodes) released at the same instant, 10-40 rounds per case on fresh brokers; oracle = the facts that hold for every sequential order of those calls: the targeted pipelines are gone and the others still deliver, every node listed by a remaining pipeline is still registered and was not closed, no node was closed twice, a closed node is unregistered, and afterwards every registered node that no remaining pipeline lists can be removed (nothing stays pinned); non-trivial = two calls target the same pipeline while another pipeline shares one of its nodes; distinct = configuration"
 
 var pipeTemplates = [][]string{{"f", "m", "s"}, {"m", "s"}, {"f", "m2", "s2"}, {"m2", "s"}, {"f", "m", "s2"}, {"f2", "m2", "s2"}}
 
@@ -47,9 +47,12 @@ func TestC06ConcurrentRemovals(t *testing.T) {
 		}
 		var calls []call
 		for i := 0; i < nc; i++ {
-			k := rapid.SampledFrom([]string{"rpan", "rpan", "rpan", "rmpipe", "rmnode"}).Draw(t, fmt.Sprintf("kind%d", i))
+			k := rapid.SampledFrom([]string{"rpan", "rpan", "rpan", "rmpipe", "rmnode", "rmnode", "regpipe"}).Draw(t, fmt.Sprintf("kind%d", i))
 			if k == "rmnode" {
 				calls = append(calls, call{k, rapid.SampledFrom(nodeIDs).Draw(t, fmt.Sprintf("node%d", i))})
+			} else if k == "regpipe" {
+				// a NEW pipeline (its own id) over a drawn node list: it may fail when a node it lists was removed first
+				calls = append(calls, call{k, fmt.Sprint(rapid.IntRange(0, len(pipeTemplates)-1).Draw(t, fmt.Sprintf("newTpl%d", i)))})
 			} else {
 				// low-numbered pipelines are favoured so that duplicates are common
 				calls = append(calls, call{k, defs[rapid.SampledFrom([]int{0, 0, 0, 1, np - 1}).Draw(t, fmt.Sprintf("pipe%d", i))].id})
@@ -62,6 +65,10 @@ func TestC06ConcurrentRemovals(t *testing.T) {
 		}
 		var cs []string
 		for _, c := range calls {
+			if c.kind == "regpipe" {
+				cs = append(cs, fmt.Sprintf("regpipe(new%d,%v)", len(cs), pipeTemplates[atoi(c.target)]))
+				continue
+			}
 			cs = append(cs, c.kind+"("+c.target+")")
 		}
 		d := fmt.Sprintf("pipelines=%s calls=[%s] rounds=%d", strings.Join(ds, " "), strings.Join(cs, " "), rounds)
@@ -70,21 +77,22 @@ func TestC06ConcurrentRemovals(t *testing.T) {
 		targeted := map[string]bool{}
 		dupTarget := map[string]int{}
 		for _, c := range calls {
-			if c.kind != "rmnode" {
+			if c.kind != "rmnode" && c.kind != "regpipe" {
 				targeted[c.target] = true
 				if c.kind == "rpan" {
 					dupTarget[c.target]++
 				}
 			}
 		}
-		inUseAfter := map[string]bool{}
+		inUseBase := map[string]bool{}
 		for _, p := range defs {
 			if !targeted[p.id] {
 				for _, n := range p.nodes {
-					inUseAfter[n] = true
+					inUseBase[n] = true
 				}
 			}
 		}
+		inUseAfter := inUseBase
 		interesting := false
 		for _, p := range defs {
 			if dupTarget[p.id] >= 2 {
@@ -116,6 +124,7 @@ func TestC06ConcurrentRemovals(t *testing.T) {
 				etOf[p.id] = p.et
 			}
 			fs := make([]func(), len(calls))
+			regOK := make([]bool, len(calls))
 			for i, c := range calls {
 				c := c
 				switch c.kind {
@@ -127,11 +136,34 @@ func TestC06ConcurrentRemovals(t *testing.T) {
 					fs[i] = func() { _ = b.RemovePipeline(eventlogger.EventType(etOf[c.target]), eventlogger.PipelineID(c.target)) }
 				case "rmnode":
 					fs[i] = func() { _ = b.RemoveNode(ctx, eventlogger.NodeID(c.target)) }
+				case "regpipe":
+					i := i
+					var ids []eventlogger.NodeID
+					for _, n := range pipeTemplates[atoi(c.target)] {
+						ids = append(ids, eventlogger.NodeID(n))
+					}
+					fs[i] = func() {
+						regOK[i] = b.RegisterPipeline(eventlogger.Pipeline{PipelineID: eventlogger.PipelineID(fmt.Sprintf("new%d", i)), EventType: "A", NodeIDs: ids}) == nil
+					}
 				}
 			}
 			if !simul.Burst(20*time.Second, fs...) {
 				fmt.Printf("\nINCONCLUSIVE-MARK watchdog: simultaneous removals did not return\n")
 				t.Skip("inconclusive")
+			}
+			// pipelines registered during the burst count as remaining pipelines
+			inUseAfter = map[string]bool{}
+			for n := range inUseBase {
+				inUseAfter[n] = true
+			}
+			var newPipes [][]string
+			for i, c := range calls {
+				if c.kind == "regpipe" && regOK[i] {
+					newPipes = append(newPipes, pipeTemplates[atoi(c.target)])
+					for _, n := range pipeTemplates[atoi(c.target)] {
+						inUseAfter[n] = true
+					}
+				}
 			}
 			ids := append([]string(nil), nodeIDs...)
 			sort.Strings(ids)
@@ -155,6 +187,12 @@ func TestC06ConcurrentRemovals(t *testing.T) {
 					if p.et == et && !targeted[p.id] {
 						any = true
 						wantSink[p.nodes[len(p.nodes)-1]]++
+					}
+				}
+				if et == "A" {
+					for _, np := range newPipes {
+						any = true
+						wantSink[np[len(np)-1]]++
 					}
 				}
 				_, err := b.Send(ctx, eventlogger.EventType(et), "x")
@@ -209,4 +247,12 @@ func TestC06ConcurrentRemovals(t *testing.T) {
 		}
 		sec.Case(interesting, d, cl...)
 	})
+}
+
+func atoi(s string) int {
+	n := 0
+	for _, ch := range s {
+		n = n*10 + int(ch-'0')
+	}
+	return n
 }
